@@ -113,7 +113,7 @@ func c01Exec(op string) (string, *Violation) {
 }
 
 func c01Gen(r *Rng, tier string, emit func(string)) {
-	n := 400
+	n := 1000
 	if tier == "thorough" {
 		n = 8000
 	}
